@@ -150,7 +150,7 @@ def _run_shard(args):
         return 124, "timeout"
 
 
-def eval_cases(ctx, name, imports, case_type, lines, fn="failures", shard=400, timeout=240):
+def eval_cases(ctx, name, imports, case_type, lines, fn="failures", shard=400, timeout=90, bisect=True, single_timeout=25):
     """Write shards of `Definition cases : list <case_type> := [...]. Eval vm_compute in (fn cases).`
     and return the list of failing global indices (None on a Coq error)."""
     d = os.path.join(ctx.work, name)
@@ -173,6 +173,9 @@ def eval_cases(ctx, name, imports, case_type, lines, fn="failures", shard=400, t
     with ThreadPoolExecutor(max_workers=16) as ex:
         results = list(ex.map(_run_shard, jobs))
         for idx, (rc, out) in enumerate(results):
+            if rc == 124 and not bisect:
+                errors.append((jobs[idx][0], "timeout"))
+                continue
             if rc == 124:
                 # a shard ran out of time: evaluate its cases one by one with a short limit; a case the model cannot
                 # evaluate in that time counts as a mismatch (the implementation produced its answer long ago)
@@ -182,10 +185,17 @@ def eval_cases(ctx, name, imports, case_type, lines, fn="failures", shard=400, t
                     sp = os.path.join(d, "s%05d_%04d.v" % (idx, j))
                     with open(sp, "w") as f:
                         f.write(header + "Definition cases : list %s := [\n%s\n].\nEval vm_compute in (%s cases).\n" % (case_type, ln, fn))
-                    single.append((sp, 25))
+                    single.append((sp, single_timeout))
                 for j, (rc2, out2) in enumerate(ex.map(_run_shard, single)):
                     m2 = re.search(r"=\s*\[(.*?)\]\s*:\s*list", out2, flags=re.S) if rc2 == 0 else None
-                    if rc2 == 124 or (m2 and re.findall(r"-?\d+", m2.group(1))):
+                    if rc2 == 124:
+                        # the exact-rational model did not finish (denominators blow up on slowly converging propagation)
+                        fails.append(base + j)
+                        timeouts = getattr(ctx, "eval_timeouts", None)
+                        if timeouts is None:
+                            timeouts = ctx.eval_timeouts = {}
+                        timeouts.setdefault(name, []).append(base + j)
+                    elif m2 and re.findall(r"-?\d+", m2.group(1)):
                         fails.append(base + j)
                     elif rc2 != 0 or not m2:
                         errors.append((single[j][0], out2[-2000:]))
